@@ -282,6 +282,10 @@ func (uconn *UConn) RemoveSNIExtension() error {
 		return fmt.Errorf("cannot call RemoveSNIExtension on a UConn with a HelloGolang ClientHelloID")
 	}
 	uconn.omitSNIExtension = true
+	if uconn.clientHelloBuildStatus != NotBuilt {
+		// the extensions are already in place: the flag is only consulted when they are built
+		uconn.removeSNIExtension()
+	}
 	return nil
 }
 
